@@ -274,10 +274,22 @@ func c13Body(r *Run) {
 		}
 	}
 
+	// UUIDs are "only used for debugging": different messages may share one (a requeued message that fails again, a
+	// producer that reuses ids) and it may be empty
+	uuidMode := t.Int(4) // 0, 1 distinct; 2 all the same; 3 the first one is empty
+	uuidOf := func(prefix string, i int) string {
+		switch {
+		case uuidMode == 2:
+			return prefix + "same"
+		case uuidMode == 3 && i == 0:
+			return ""
+		}
+		return fmt.Sprintf("%s%d", prefix, i)
+	}
 	if mode == 0 {
 		// stand-alone, presented up to three times like a redelivering broker would
 		for attempt := 0; attempt < 3; attempt++ {
-			m := message.NewMessage(fmt.Sprintf("sa-%d", attempt), []byte("payload"))
+			m := message.NewMessage(uuidOf("sa-", attempt), []byte("payload"))
 			m.Metadata.Set("user-key", "user-value")
 			if t.Chance(1, 2) {
 				m.Metadata.Set(middleware.ReasonForPoisonedKey, "stale reason")
@@ -335,7 +347,7 @@ func c13Body(r *Run) {
 				md[middleware.PoisonedHandlerKey] = "stale handler"
 				md[middleware.PoisonedSubscriberKey] = "stale subscriber"
 			}
-			script.Script[inTopic] = append(script.Script[inTopic], ScriptMsg{UUID: fmt.Sprintf("r-%d", i), Payload: "payload", Metadata: md})
+			script.Script[inTopic] = append(script.Script[inTopic], ScriptMsg{UUID: uuidOf("r-", i), Payload: "payload", Metadata: md})
 		}
 		sub = script
 	} else {
